@@ -275,7 +275,7 @@ func render(p PathSpec, v any, si *shapeInfo) (outs []out) {
 	case "gob":
 		return renderGob(v, si)
 	case "confmap":
-		return renderConfmap(p.V, v)
+		return renderConfmap(p.V, v, si)
 	case "zap":
 		i := strings.IndexByte(p.V, '/')
 		return renderZap(p.V[:i], p.V[i+1:], v)
@@ -567,7 +567,7 @@ type fieldHolder struct {
 	Dict  map[string]any `mapstructure:"dict"`
 }
 
-func renderConfmap(variant string, v any) []out {
+func renderConfmap(variant string, v any, si *shapeInfo) []out {
 	in := v
 	switch variant {
 	case "marshal-ptr":
@@ -582,10 +582,12 @@ func renderConfmap(variant string, v any) []out {
 	conf := confmap.New()
 	err := conf.Marshal(in)
 	o := []out{{"err", reGenKey.ReplaceAllString(errText(err), `"k#"`)}}
-	if variant == "marshal-map" && err != nil {
+	if (variant == "marshal-map" || si.marshaler) && err != nil {
 		// every entry of the top-level map holds the value, so every entry fails
 		// alike and which one is reported depends on Go's map iteration order:
 		// compare the innermost cause only, search the whole text
+		// (the same holds for custom marshallers that place a value under several
+		// keys of the section they build)
 		full := o[0].text
 		o = []out{{"scan:err-full", full}, {"err", full[strings.LastIndex(full, ": ")+1:]}}
 	}
